@@ -1,6 +1,7 @@
 import RTV.Props.C13
 import RTV.Lemmas.SeqExtract
 import RTV.Lemmas.IpChars
+import RTV.Lemmas.Ip6First
 /-!
 # C13 at extractor level — `BaseIpExtractor.extract` (model `RTV.Seq.ipExtract`) on the regenerated patterns
 
@@ -360,6 +361,37 @@ theorem ipv6_extract_of_first {T : Tables} {K : CharClass} (ht : TablesOk T) (hk
     rw [A, B]
     simp
 
+/-- **C13, IPv6, the reported span.**  At the start of an IPv6 address text (exploded, or compressed in any of the
+forms `a` groups `::` `b` groups, `a + b ≤ 7`) that no word character touches and that is not followed by `:`, the
+engine's first answer is the end of the text — although shorter matches exist (`1::2` inside `1::2:3`). -/
+theorem ipv6_reported_span {T : Tables} (ht : TablesOk T) (s : Array Nat) (i j : Nat) (hv : V6At s i j)
+    (hl : i = 0 ∨ wordAt T s (i - 1) = false) (hr : wordAt T s j = false) (hnc : code s j ≠ 58) :
+    firstEnd T s RTV.Gen.ipv6Regex i = some j := by
+  rw [gen_ipv6]
+  exact ipv6RE_firstEnd ⟨ht.hex, ht.colon, hl, hr, hnc⟩ hv
+
+theorem OwnToken.ctx {T : Tables} {K : CharClass} {s : Array Nat} {i j : Nat} (h : OwnToken T K s i j) :
+    (i = 0 ∨ wordAt T s (i - 1) = false) ∧ wordAt T s j = false ∧ code s j ≠ 58 := by
+  obtain ⟨hl, hr⟩ := h
+  refine ⟨?_, ?_, ?_⟩
+  · rcases hl with h | h
+    · exact .inl h
+    · exact .inr (wordAt_of_nonword (.inr h.1))
+  · rcases hr with h | h
+    · exact wordAt_of_nonword (.inl h)
+    · exact wordAt_of_nonword (.inr h.1)
+  · rcases hr with h | h
+    · subst h; simp [code, Array.getD]
+    · exact h.2.2.1
+
+/-- **C13, IPv6, extractor level (all texts).**  An IPv6 address text (exploded or compressed) at `[i, j)` of `s`
+that stands as its own token is reported by `BaseIpExtractor.extract` with exactly its span, its text and the tag
+`ipv6`. -/
+theorem ipv6_extract_complete {T : Tables} {K : CharClass} (ht : TablesOk T) (hk : NoSpace K) (s : Str) (i j : Nat)
+    (hv : V6At s.toArray i j) (hd : OwnToken T K s.toArray i j) :
+    (⟨i, j - i, slice s.toArray i j, "ipv6"⟩ : ER) ∈ ipExtract T K RTV.Gen.ipv4Regex RTV.Gen.ipv6Regex s :=
+  ipv6_extract_of_first ht hk s i j hv hd (ipv6_reported_span ht _ i j hv hd.ctx.1 hd.ctx.2.1 hd.ctx.2.2)
+
 /-! ### soundness at extractor level -/
 
 /-- **C13, soundness, extractor level (all texts, all tables).**  Whatever `BaseIpExtractor.extract` reports is a
@@ -379,5 +411,112 @@ theorem ip_extract_reports_valid (T : Tables) (K : CharClass) (s : Str) :
     have : r.start + r.len = b := by omega
     rw [this]
     exact .inr ⟨h.1, ipv6_sound T _ _ _ h.2⟩
+
+/-! ### list-level forms, longer dotted runs -/
+
+theorem slice_mid (l a r : Str) : slice (l ++ a ++ r).toArray l.length (l.length + a.length) = a := by
+  unfold slice; simp
+
+theorem code_mid_before (l a r : Str) (c : Nat) (h : l.getLast? = some c) :
+    code (l ++ a ++ r).toArray (l.length - 1) = c := by
+  have hne : l ≠ [] := by intro h0; simp [h0] at h
+  have hl : 0 < l.length := List.length_pos_iff.2 hne
+  rw [List.getLast?_eq_getElem?] at h
+  have hlt : l.length - 1 < l.length := by omega
+  rw [List.getElem?_eq_getElem hlt] at h
+  simp only [Option.some.injEq] at h
+  unfold code
+  have hlt2 : l.length - 1 < (l ++ a ++ r).toArray.size := by simp; omega
+  simp only [Array.getD, hlt2, dite_true]
+  simp [List.getElem_append_left, hlt, h]
+
+theorem code_mid_after (l a r : Str) (c : Nat) (h : r.head? = some c) :
+    code (l ++ a ++ r).toArray (l.length + a.length) = c := by
+  cases r with
+  | nil => simp at h
+  | cons x t =>
+    simp at h; subst h
+    unfold code
+    simp [Array.getD]
+
+/-- **C13, IPv4, list form.**  `l ++ a ++ r` with `a` a valid dotted quad, `l` empty or ending in a `Sep`, `r` empty or
+beginning with a non-word character other than `:`: the extractor reports `a` — start `|l|`, length `|a|`, text `a`. -/
+theorem ipv4_token_reported {T : Tables} {K : CharClass} (ht : TablesOk T) (hk : NoSpace K) (l a r : Str)
+    (hv : ValidV4 a) (hl : l = [] ∨ ∃ c, l.getLast? = some c ∧ Sep T K c)
+    (hr : r = [] ∨ ∃ c, r.head? = some c ∧ T.word c = false ∧ c ≠ 58) :
+    (⟨l.length, a.length, a, "ipv4"⟩ : ER) ∈ ipExtract T K RTV.Gen.ipv4Regex RTV.Gen.ipv6Regex (l ++ a ++ r) := by
+  have key := ipv4_extract_complete ht hk (l ++ a ++ r) l.length (l.length + a.length) (by simp)
+    (by rw [slice_mid]; exact hv) ?_ ?_
+  · rw [slice_mid] at key
+    simpa using key
+  · rcases hl with h | ⟨c, h1, h2⟩
+    · exact .inl (by simp [h])
+    · exact .inr (by rw [code_mid_before l a r c h1]; exact h2)
+  · rcases hr with h | ⟨c, h1, h2⟩
+    · exact .inl (by simp [h])
+    · exact .inr (by rw [code_mid_after l a r c h1]; exact h2)
+
+/-- **A longer dotted run** (audit item 19, `0.1.2.3.4`).  When a valid dotted quad `a` is followed by `.` and anything
+else, the extractor reports `a`: the leading quad of the run, with its exact span.  How this relates to the property:
+the *soundness* clause holds for this report — `a` IS a valid address (hypothesis `hv`; in general
+`ip_extract_reports_valid`) — and the *completeness* clause does not speak about the run as a whole, which is not a
+valid address (`longer_dotted_run_invalid`) and hence no "valid address standing as its own token". -/
+theorem ipv4_dotted_run_reports_prefix {T : Tables} {K : CharClass} (ht : TablesOk T) (hk : NoSpace K) (l a rest : Str)
+    (hv : ValidV4 a) (hl : l = [] ∨ ∃ c, l.getLast? = some c ∧ Sep T K c) :
+    (⟨l.length, a.length, a, "ipv4"⟩ : ER) ∈
+      ipExtract T K RTV.Gen.ipv4Regex RTV.Gen.ipv6Regex (l ++ a ++ 46 :: rest) :=
+  ipv4_token_reported ht hk l a (46 :: rest) hv hl (.inr ⟨46, rfl, ht.dot, by decide⟩)
+
+theorem ValidV4_dots {w : Str} (h : ValidV4 w) : w.count 46 = 3 := by
+  obtain ⟨a, b, c, d, ha, hb, hc, hd, rfl⟩ := h
+  have z : ∀ {x : Str}, Oct x → x.count 46 = 0 := by
+    intro x hx
+    rw [List.count_eq_zero]
+    intro hm
+    have := hx.2.2.1 46 hm
+    omega
+  simp [List.count_append, z ha, z hb, z hc, z hd]
+
+/-- a valid quad followed by `.` and anything is not a valid address as a whole (it has more than three dots) -/
+theorem longer_dotted_run_invalid {a : Str} (hv : ValidV4 a) (rest : Str) : ¬ ValidV4 (a ++ 46 :: rest) := by
+  intro h
+  have h1 := ValidV4_dots hv
+  have h2 := ValidV4_dots h
+  simp [List.count_append, h1] at h2
+
+/-! ### the hypotheses hold for the running engine's tables and Python's character classes -/
+
+theorem real_tablesOk : TablesOk RTV.Gen.reTables :=
+  ⟨real_hex_are_word, by decide +kernel, real_colon_not_word⟩
+
+theorem real_noSpace : NoSpace pyChars := by
+  intro c hc
+  have : c ∈ List.range' 48 10 ++ List.range' 65 6 ++ List.range' 97 6 ++ [46, 58] := by
+    simp only [List.mem_append, List.mem_range'_1, List.mem_cons, List.mem_nil_iff, or_false]
+    unfold isHexI at hc; omega
+  have hall : (List.range' 48 10 ++ List.range' 65 6 ++ List.range' 97 6 ++ [46, 58]).all
+      (fun c => !pyChars.isSpace c) = true := by decide +kernel
+  simpa using List.all_eq_true.1 hall c this
+
+/-- blank, tab, newline, carriage return, `! " # $ % & ' ( ) * + , - / ; < = > ? @ [ \ ] ^ ` { | } ~` -/
+def asciiSeps : List Nat :=
+  [9, 10, 13, 32, 33, 34, 35, 36, 37, 38, 39, 40, 41, 42, 43, 44, 45, 47, 59, 60, 61, 62, 63, 64, 91, 92, 93, 94, 96,
+   123, 124, 125, 126]
+
+instance (T : Tables) (K : CharClass) (c : Nat) : Decidable (Sep T K c) := by unfold Sep; exact inferInstance
+
+/-- every ASCII white-space / punctuation character except `.` `:` `_` is a `Sep` for the real tables -/
+theorem real_seps : ∀ c ∈ asciiSeps, Sep RTV.Gen.reTables pyChars c := by decide +kernel
+
+/-- `0.1.2.3.4` on the real tables: exactly one entity, `0.1.2.3` at `[0, 7)` (replayed on the implementation by the
+correspondence: `ip.extract` on the same string) -/
+theorem dotted_run_witness :
+    ipExtract RTV.Gen.reTables pyChars RTV.Gen.ipv4Regex RTV.Gen.ipv6Regex (ofString "0.1.2.3.4") =
+      [⟨0, 7, ofString "0.1.2.3", "ipv4"⟩] := by decide +kernel
+
+/-- the hypotheses of `ipv6_extract_complete` are satisfiable: `( fe80::1:2 )` -/
+example : (⟨2, 9, ofString "fe80::1:2", "ipv6"⟩ : ER) ∈
+    ipExtract RTV.Gen.reTables pyChars RTV.Gen.ipv4Regex RTV.Gen.ipv6Regex (ofString "( fe80::1:2 )") := by
+  decide +kernel
 
 end RTV.C13
